@@ -1745,7 +1745,7 @@ def c12(ck):
     # no command when asked for help). Not in the model; judged by the property's own words.
     names0 = declgen.all_names(sets[0])
     rlines = ["help", "help nosuch", "nosuch -h", "nosuch --help x", "nosuch -vh", "nosuch a b", "help " + names0[0], names0[0] + " --help", names0[-1] + " -h",
-              "help nosuch " + names0[0], "x -- -h", "help"]
+              "help nosuch " + names0[0], "x -- -h", names0[0], "help"]
     rcases = ["%d 32 %d draw %s" % (cap_, pi_, ";".join("b:" + gen.hx(l.encode()) + ";b:0d" for l in rlines)) for cap_ in (40, 64) for pi_ in (1, 2)]
 
     def oracle_rawmember(case, io):
@@ -1763,6 +1763,9 @@ def c12(ck):
                     return "help-shaped line `%s` reached the handler: %s" % (l, f["calls"])
                 if not out.startswith("0d0a" + unknown + "0d0a"):
                     return "help about the unknown command in `%s` (group with a RawCommand member) does not print `error: unknown command`: sink %s" % (l, out)
+            elif l == names0[0]:
+                if not f["calls"].startswith(gen.hx(l.encode())):
+                    return "the known command `%s` must go to the FIRST member that knows it (the derived enum, not the RawCommand catch-all), handler saw %s" % (l, f["calls"])
             elif l in ("nosuch a b", "x -- -h"):
                 if f["calls"] != "R" + gen.hx(l.split(" ")[0].encode()):
                     return "the line `%s` must reach the RawCommand member of the group, handler saw %s" % (l, f["calls"])
